@@ -139,7 +139,7 @@ class Frozen(Monitor):
 PROFILE = {'weights': {'transfer': 6, 'container': 2, 'plate': 1, 'remove': 2, 'fill_to': 2, 'slice': 3,
                        'create_solution': 1, 'dilute': 2, 'create_solution_from': 1},
            'q_modes': ['frac'] * 6 + ['over', 'over', 'whole', 'zero', 'neg'], 'self_transfer': False,
-           'ctor_faults': True}
+           'ctor_faults': True, 'initial_slices': 1}
 
 
 def run(col):
